@@ -1,6 +1,7 @@
 package main
 
 import (
+	"strings"
 	"go/token"
 	"fmt"
 
@@ -60,7 +61,7 @@ func (c *Ctx) invokesFieldCallback(call ssa.CallInstruction, field string, depth
 }
 
 func checkC17(c *Ctx, r *Report) {
-	r.Explain = "Decides structural necessary conditions of 'checkpoints never run ahead': (R1) the checkpointer's lists, lookup table, last checkpoint and revision ids are only touched under its lock and the `_` helpers — including the function that persists the checkpoints — are entered with it held, so the computation of a safe sequence and its persistence are one critical section; (R2) the persisted last_sequence derives only from the element of the expected list selected by the safe-prefix index, and the in-memory last checkpoint is updated only after both writes succeeded; (R3) the safe-prefix scan sorts by SequenceID.Before, advances only on the processed-hit edge and stops at the first miss, and list compaction removes an element only when it and its successor are processed; (R4) the replicators bind each registration callback to the matching checkpointer method, and when a pulled changes batch is handled the already-known sequences are reported only after the batch's expected sequences have been registered; (R5) a pulled revision is reported processed only on the success edge of its local write (or purge); (R6) a pushed revision is reported processed only after the peer's answer to it was received. Not decided: interleavings of registration and completion across concurrent batches, monotonicity of successive checkpoints as a whole."
+	r.Explain = "Decides structural necessary conditions of 'checkpoints never run ahead': (R1) the checkpointer's lists, lookup table, last checkpoint and revision ids are only touched under its lock and the `_` helpers — including the function that persists the checkpoints — are entered with it held, so the computation of a safe sequence and its persistence are one critical section; (R2) the persisted last_sequence derives only from the element of the expected list selected by the safe-prefix index, and the in-memory last checkpoint is updated only after both writes succeeded; (R3) the safe-prefix scan sorts by SequenceID.Before, advances only on the processed-hit edge and stops at the first miss, and list compaction removes an element only when it and its successor are processed; (R4) the replicators bind each registration callback to the matching checkpointer method, and when a pulled changes batch is handled the already-known sequences are reported only after the batch's expected sequences have been registered; (R5) a pulled revision is reported processed only on the success edge of its local write (or purge); (R6) a pushed revision is reported processed only after the peer's answer to it was received.; (R7) all registration methods drop their input once the checkpointer's context is cancelled. Not decided: interleavings of registration and completion across concurrent batches, monotonicity of successive checkpoints as a whole."
 	la := newLockAnalysis(c, []string{"Checkpointer.lock"}, "db")
 	la.Solve()
 	r.Rule("C17-R1", "E1 guardedby", "Checkpointer{expectedSeqs,processedSeqs,idAndRevLookup,stats,lastCheckpointSeq,last*CheckpointRevID} accessed only under Checkpointer.lock; `_` helpers entered with it held", 25)
@@ -88,6 +89,7 @@ func checkC17(c *Ctx, r *Report) {
 	c17R4(c, r)
 	pullProcessedOnlyAfterWrite(c, r, "C17-R5")
 	c06R3For(c, r, "C17-R6")
+	c17R7(c, r)
 }
 
 func c17R2(c *Ctx, r *Report) {
@@ -438,4 +440,77 @@ func trimBound(s string) string {
 		return s[:len(s)-6]
 	}
 	return s
+}
+
+// C17-R7: sibling agreement of the checkpointer's registration methods. After the replicator cancelled the checkpointer's context
+// every registration is dropped, so the final checkpoint taken on disconnect only reflects complete batches. If one method keeps
+// registering after cancellation while its siblings drop their input, a batch in flight at disconnect is recorded half: its
+// already-known sequences count as expected-and-processed while the wanted ones were never expected, and the final checkpoint passes them.
+func c17R7(c *Ctx, r *Report) {
+	r.Rule("C17-R7", "E2 pathrules (sibling agreement)", "every Add… registration method of the Checkpointer returns without taking the lock when the checkpointer's context is done", 5)
+	methods := []string{"AddAlreadyKnownSeq", "AddProcessedSeq", "AddProcessedSeqIDAndRev", "AddExpectedSeqs", "AddExpectedSeqIDAndRevs"}
+	for _, m := range methods {
+		fn := c.Func("(*db.Checkpointer)." + m)
+		if fn == nil {
+			r.Fail("C17-R7", "anchor (*db.Checkpointer)."+m, "-", "registration method not found")
+			continue
+		}
+		// the non-blocking receive from ctx.Done()
+		var sel *ssa.Select
+		EachInstr(fn, false, func(in ssa.Instruction) {
+			s, ok := in.(*ssa.Select)
+			if !ok || s.Blocking {
+				return
+			}
+			for _, st := range s.States {
+				if DependsOn(st.Chan, func(v ssa.Value) bool {
+					cc, isCall := v.(*ssa.Call)
+					return isCall && cc.Call.IsInvoke() && cc.Call.Method.Name() == "Done"
+				}) {
+					sel = s
+				}
+			}
+		})
+		locks := c.Calls(fn, false, func(n string) bool { return strings.HasSuffix(n, ".Lock") })
+		ok := sel != nil && len(locks) > 0
+		if ok {
+			// the lock must be taken only on the select's default arm: dominated by the select and unreachable from the ready arm
+			// (index 0 of a single-state select)
+			for _, l := range locks {
+				if !DominatedBy(fn, l, NewAvoid().AddInstr(sel)) {
+					ok = false
+				}
+			}
+			var idx ssa.Value
+			if refs := sel.Referrers(); refs != nil {
+				for _, rf := range *refs {
+					if ex, isEx := rf.(*ssa.Extract); isEx && ex.Index == 0 {
+						idx = ex
+					}
+				}
+			}
+			ready := EdgesWhere(fn, func(cond ssa.Value) (bool, bool) {
+				b, isB := cond.(*ssa.BinOp)
+				if !isB || b.X != idx {
+					return false, false
+				}
+				if k, isK := constInt(b.Y); isK && k == 0 && b.Op == token.EQL {
+					return true, true
+				}
+				return false, false
+			})
+			if idx == nil || len(ready) == 0 {
+				ok = false
+			}
+			for _, e := range ready {
+				for _, l := range locks {
+					if ReachFrom(e.To(), 0, func(in ssa.Instruction) bool { return in == ssa.Instruction(l) }, nil) != nil {
+						ok = false
+					}
+				}
+			}
+		}
+		r.Check("C17-R7", "fn=(*db.Checkpointer)."+m+" drops-input-when=context-done", c.Pos(fn.Pos()), ok,
+			"returns before taking the lock once the context is cancelled", "this registration method keeps registering after the checkpointer's context was cancelled while its siblings drop their input: a changes batch in flight at disconnect is recorded half and the final checkpoint can pass revisions that were requested but never processed")
+	}
 }
